@@ -160,8 +160,10 @@ pub fn serve(arg: &str) -> String {
     let mut threads = 2usize;
     let mut plan = "";
     let mut slow_teardown = false;
+    let mut late = false; // late=1: deferred script parts run AFTER the stop connection (connections still queued / open at StopAccepting)
     for w in arg.split_whitespace() {
         if w == "slowtd=1" { slow_teardown = true }
+        if w == "late=1" { late = true }
         if let Some(v) = w.strip_prefix("mode=") { mode = v }
         if let Some(v) = w.strip_prefix("threads=") { threads = v.parse().unwrap_or(2) }
         if let Some(v) = w.strip_prefix("plan=") { plan = v }
@@ -197,7 +199,7 @@ pub fn serve(arg: &str) -> String {
     // (the connection stays open meanwhile)
     let mut deferred: Vec<(usize, TcpStream, Vec<u8>, Vec<String>, String)> = Vec::new();
     for (ci, (d_, script)) in conns.iter().enumerate() {
-        if *d_ == 'S' {
+        if *d_ == 'S' && !late {
             // deferred script parts run before accepting is stopped (a stop abandons open connections in epoll mode: K16)
             for (cj, mut client, mut pending, mut out, rest) in deferred.drain(..) {
                 run_steps(&mut client, &rest, &mut pending, &mut out);
